@@ -14,10 +14,11 @@ import (
 func init() { register("C01", runC01) }
 
 type c01Case struct {
-	Profile  string      `json:"profile,omitempty"`   // canonical token form
-	Bytes    string      `json:"bytes,omitempty"`     // hex, for the accepted-bytes stream
-	EditSeed uint64      `json:"edit_seed,omitempty"` // history stream: serialize, edit in memory (seeded), serialize again
-	CLI      *c01CLISpec `json:"cli,omitempty"`       // driver stream (c01_cli.go): Profile through the real pprof binary
+	Profile  string         `json:"profile,omitempty"`   // canonical token form
+	Bytes    string         `json:"bytes,omitempty"`     // hex, for the accepted-bytes stream
+	EditSeed uint64         `json:"edit_seed,omitempty"` // history stream: serialize, edit in memory (seeded), serialize again
+	Inproc   *c01InprocSpec `json:"inproc,omitempty"`    // driver stream, in-process (c01_inproc.go): Profile through driver.PProf
+	CLI      *c01CLISpec    `json:"cli,omitempty"`       // driver stream (c01_cli.go): Profile through the real pprof binary
 }
 
 // editProfile applies 1..4 validity-preserving in-memory edits to p (the kind of thing pprof
@@ -380,14 +381,16 @@ var c01Strategies = []struct {
 }
 
 func runC01(c *Ctx) {
-	c.Res.Rule = "structured valid profiles from 6 strategies (plain, sparse/huge ids, weird strings, extreme ints, shapes, all-default elements), each also as a 2-step history (serialize, seeded in-memory edit, serialize again) + mutated accepted byte strings; non-trivial = has ≥1 sample with ≥1 location having ≥1 line (profile stream) or accepted by the parser with ≥1 sample (byte stream); distinct by canonical text"
+	c.Res.Rule = "structured valid profiles from 6 strategies (plain, sparse/huge ids, weird strings, extreme ints, shapes, all-default elements), each also as a 2-step history (serialize, seeded in-memory edit, serialize again) + mutated accepted byte strings; + driver level: the same 6 strategies through the real pprof binary (`-proto -output=f in`, plain / with options that must not change a saved profile / -divide_by=d, and interactive sessions with `proto >f` between other commands; one process per case) and through driver.PProf in-process (interactive sessions via the profile copier, web requests then GET /download), output re-read and compared by value with normalize(input); non-trivial = has ≥1 sample with ≥1 location having ≥1 line (profile and driver streams) or accepted by the parser with ≥1 sample (byte stream); distinct by canonical text (+ mode/flags/script for driver cases)"
 	if c.Replay != "" {
 		var cs c01Case
 		if err := c.LoadReplay(&cs); err != nil {
 			c.Res.HarnessError = err.Error()
 			return
 		}
-		if cs.Profile != "" && cs.CLI != nil {
+		if cs.Profile != "" && cs.Inproc != nil {
+			c01InprocEval(c, cs.Profile, *cs.Inproc, c01InprocExec(cs.Profile, *cs.Inproc))
+		} else if cs.Profile != "" && cs.CLI != nil {
 			c01CLIEval(c, cs.Profile, *cs.CLI, c01CLIExec(c, cs.Profile, *cs.CLI, 0))
 		} else if cs.Profile != "" && cs.EditSeed != 0 {
 			c01History(c, cs.Profile, cs.EditSeed)
@@ -441,4 +444,5 @@ func runC01(c *Ctx) {
 	// driver level: the same strategies through the real pprof binary (own PRNG stream, so that the
 	// in-process streams above do not depend on it)
 	c01CLIStream(c, NewRng(c.Seed^0xC01C11), 240*c.Scale)
+	c01InprocStream(c, NewRng(c.Seed^0xC01D21), 180*c.Scale)
 }
